@@ -2,6 +2,7 @@ package scen
 
 import (
 	"fmt"
+	"reflect"
 
 	"cosmossdk.io/math"
 	sdk "github.com/cosmos/cosmos-sdk/types"
@@ -242,6 +243,30 @@ func init() {
 			g.Free(c.N(25, 60), g.StdDt)
 		}
 		c.Extra["example_schedules"] = done
+		// generic single-field edges (both sides of every limit), a rotating slice per job, each
+		// followed by traffic and then by a proposal restoring the parameters it found
+		ge := GenericEdges(w)
+		c.Extra["generic_param_edges_total"] = len(ge)
+		gper := c.N(10, 24)
+		gstart := (c.Job.Index * gper) % len(ge)
+		gdone := []string{}
+		for k := 0; k < gper && !w.Dead; k++ {
+			e := ge[(gstart+k)%len(ge)]
+			set, restore := e.Make()
+			gdone = append(gdone, e.Name)
+			if w.GovExec("generic:"+e.Name, set...) {
+				c.Ev("generic_param_edge_passed")
+				gdone[len(gdone)-1] += " [accepted]"
+				w.Silent = map[string]bool{}
+				g.Free(c.N(8, 12), g.StdDt)
+				if !w.Dead && !w.GovExec("restore:"+e.Name, restore...) {
+					c.Ev("generic_param_restore_failed")
+				}
+			} else {
+				c.Ev("generic_param_edge_rejected")
+			}
+		}
+		c.Extra["example_generic_edges"] = gdone
 	})
 }
 
@@ -369,4 +394,94 @@ func applyFault(c *run.Ctx, w *chain.World, g freeGen, name string, edges map[st
 func scan(s, format string, k *int) bool {
 	n, err := fmt.Sscanf(s, format, k)
 	return err == nil && n == 1
+}
+
+// GenericEdges enumerates, by reflection over every module's Params struct, one governance proposal
+// per (numeric field, boundary value): each LegacyDec field is set to values on both sides of the
+// usual limits (a just-negative value, 0, 1, just above 1, 2, 1e6), each integer field to 0, 1 and
+// 2^62, every other field staying as it is in state. Values that a module's Validate() refuses are
+// simply rejected by the message (nothing happens); the point of sending them anyway is that a
+// validation that lets one of them through shows in the blocks that follow. Each entry returns the
+// proposal and the proposal that restores the parameters found in state.
+type genericEdge struct {
+	Name string
+	Make func() (set []sdk.Msg, restore []sdk.Msg)
+}
+
+var decEdgeValues = []string{"-0.000000000000000001", "0", "1", "1.000000000000000001", "2", "1000000"}
+
+func GenericEdges(w *chain.World) []genericEdge {
+	a := w.App
+	gov := w.Gov
+	type mod struct {
+		name string
+		get  func() interface{}          // pointer to a fresh copy of the params in state
+		msg  func(p interface{}) sdk.Msg // update message carrying *p
+	}
+	mods := []mod{
+		{"masterchef", func() interface{} { p := a.MasterchefKeeper.GetParams(w.ReadCtx()); return &p }, func(p interface{}) sdk.Msg {
+			return &mctypes.MsgUpdateParams{Authority: gov, Params: *(p.(*mctypes.Params))}
+		}},
+		{"amm", func() interface{} { p := a.AmmKeeper.GetParams(w.ReadCtx()); return &p }, func(p interface{}) sdk.Msg {
+			return &ammtypes.MsgUpdateParams{Authority: gov, Params: p.(*ammtypes.Params)}
+		}},
+		{"perpetual", func() interface{} { p := a.PerpetualKeeper.GetParams(w.ReadCtx()); return &p }, func(p interface{}) sdk.Msg {
+			return &perptypes.MsgUpdateParams{Authority: gov, Params: p.(*perptypes.Params)}
+		}},
+		{"leveragelp", func() interface{} { p := a.LeveragelpKeeper.GetParams(w.ReadCtx()); return &p }, func(p interface{}) sdk.Msg {
+			return &lptypes.MsgUpdateParams{Authority: gov, Params: p.(*lptypes.Params)}
+		}},
+		{"stablestake", func() interface{} { p := a.StablestakeKeeper.GetParams(w.ReadCtx()); return &p }, func(p interface{}) sdk.Msg {
+			return &sstypes.MsgUpdateParams{Authority: gov, Params: p.(*sstypes.Params)}
+		}},
+		{"estaking", func() interface{} { p := a.EstakingKeeper.GetParams(w.ReadCtx()); return &p }, func(p interface{}) sdk.Msg {
+			return &estakingtypes.MsgUpdateParams{Authority: gov, Params: *(p.(*estakingtypes.Params))}
+		}},
+		{"tradeshield", func() interface{} { p := a.TradeshieldKeeper.GetParams(w.ReadCtx()); return &p }, func(p interface{}) sdk.Msg {
+			return &tstypes.MsgUpdateParams{Authority: gov, Params: p.(*tstypes.Params)}
+		}},
+	}
+	decT := reflect.TypeOf(math.LegacyDec{})
+	intT := reflect.TypeOf(math.Int{})
+	out := []genericEdge{}
+	for _, m := range mods {
+		m := m
+		t := reflect.TypeOf(m.get()).Elem()
+		for i := 0; i < t.NumField(); i++ {
+			f := t.Field(i)
+			i := i
+			add := func(label string, set func(v reflect.Value)) {
+				out = append(out, genericEdge{Name: m.name + "." + f.Name + "=" + label, Make: func() ([]sdk.Msg, []sdk.Msg) {
+					orig := m.get()
+					p := m.get()
+					set(reflect.ValueOf(p).Elem().Field(i))
+					return []sdk.Msg{m.msg(p)}, []sdk.Msg{m.msg(orig)}
+				}})
+			}
+			switch {
+			case f.Type == decT:
+				for _, v := range decEdgeValues {
+					v := v
+					add(v, func(x reflect.Value) { x.Set(reflect.ValueOf(chain.Dec(v))) })
+				}
+			case f.Type == intT:
+				for _, v := range []int64{-1, 0, 1, 1 << 62} {
+					v := v
+					add(fmt.Sprint(v), func(x reflect.Value) { x.Set(reflect.ValueOf(math.NewInt(v))) })
+				}
+			case f.Type.Kind() == reflect.Uint64 || f.Type.Kind() == reflect.Int64:
+				for _, v := range []int64{0, 1, 1 << 62} {
+					v := v
+					add(fmt.Sprint(v), func(x reflect.Value) {
+						if x.Kind() == reflect.Uint64 {
+							x.SetUint(uint64(v))
+						} else {
+							x.SetInt(v)
+						}
+					})
+				}
+			}
+		}
+	}
+	return out
 }
